@@ -805,6 +805,23 @@ def run_impl(case):
         unfinished = dt_call()
         unfinished["agg_current"] = [float(x) for x in analysis.aggregate_current(sim)]
         unfinished["peak"] = float(sim.peak)
+        # EVERY analysis function is asked once on the unfinished simulation (whatever it answers now, what it answers
+        # after the run has been completed is judged from first principles below: nothing may be remembered per simulator)
+        unfinished["agg_power"] = [float(x) for x in analysis.aggregate_power(sim)]
+        unfinished["rates"] = [[float(x) for x in row] for row in sim.charging_rates]
+        touched = []
+        for fn, args in ((analysis.total_energy_delivered, ()), (analysis.total_energy_requested, ()),
+                         (analysis.proportion_of_energy_delivered, ()), (analysis.proportion_of_demands_met, ()),
+                         (analysis.constraint_currents, ()), (analysis.constraint_currents, (True,)),
+                         (analysis.energy_cost, ()), (analysis.demand_charge, ())):
+            try:
+                with warnings.catch_warnings():
+                    warnings.simplefilter("ignore")
+                    fn(sim, *args)
+                touched.append(fn.__name__)
+            except Exception:  # noqa: BLE001  (no tariff, 0/0 …: the answer on the unfinished run is not judged)
+                pass
+        unfinished["touched"] = touched
         sim.run()
     assert sim.event_queue.empty()
     peak = float(sim.peak)
@@ -1265,6 +1282,13 @@ def oracle(case, obs):
                           "detail": f"unfinished simulation at iteration {un['iter']}: sim.peak={un['peak']} aggregate_current={un['agg_current'][:un['iter']]}"})
         if any(x != 0 for x in un["agg_current"][un["iter"]:]):
             fails.append({"kind": "unfinished_future_current_nonzero", "detail": f"iteration={un['iter']} agg={un['agg_current']}"})
+        if un.get("agg_power") is not None and obs.get("raw"):
+            un_volts = [float(v) for v in obs["raw"]["V"]] if "V" in obs["raw"] else None
+            if un_volts is not None:
+                un_R = un["rates"]
+                un_want = [sum(un_volts[j] * un_R[j][t] for j in range(len(un_R))) / 1000 for t in range(len(un_R[0]) if un_R else 0)]
+                if len(un_want) != len(un["agg_power"]) or any(not close(a, b) for a, b in zip(un["agg_power"], un_want)):
+                    fails.append({"kind": "aggregate_power_wrong", "detail": f"unfinished simulation: {un['agg_power'][:6]} expected {un_want[:6]}"})
     if "peak" in raw:
         # Simulator.peak = max(0, max over the simulated periods of aggregate_current)       (C02.peak_eq_max)
         wantp = max([0.0] + [float(x) for x in obs["agg_current"][:it]])
